@@ -3,11 +3,13 @@ package main
 import (
 	"fmt"
 	"os"
+	"verifharness/tlc"
 
 	"verifharness/chk"
 )
 
 func main() {
+	tlc.AtExit = chk.AtExit
 	if len(os.Args) < 2 {
 		fmt.Fprintln(os.Stderr, "usage: vh check <Cxx> [--tier quick|thorough] [--replay file] | vh smoke")
 		os.Exit(2)
